@@ -744,6 +744,24 @@ def header_coordinates(facts, res):
     return ok
 
 
+def leaf_assignment(facts, res):
+    """C06.9: the leaf a particle is stored in is decided by the sorter: particles are sorted by the index getIndexFromPosition gave them and
+    leaves are cut where that same key changes (rule C07.5, same engine; a packed integer key must keep every bit of the index)"""
+    import c07
+    sub = tbf.Result("C07")
+    c07.sorter_split(facts, sub)
+    R = "C06.9.leaf-assignment"
+    n = 0
+    for i in sub.instances:
+        if i["rule"] == "C07.5.sorted-leaves":
+            n += 1
+            res.instance(R, i["key"], i["at"], i["detail"])
+    for v in sub.violations:
+        if v["rule"] == "C07.5.sorted-leaves":
+            res.violation(R, v["file"], v["function"], v["key"], v["line"], v["msg"])
+    res.floor(R, n, 1, "sorter key facts")
+
+
 def run(res, tier):
     facts = tbf.scan("core")
     res.units.append("umbrella TU 'core': TbfMemoryBlock, group constructors, shipped kernels, ordering classes; witnesses c06_narrow, c06_probe")
@@ -760,6 +778,8 @@ def run(res, tier):
     relative_position(facts, res)
     res.rule("C06.8 header coordinates: every write of a header's boxCoord is getBoxPosFromIndex of the index written to the same header just before; every index write is followed by a coordinates write; accessors return those fields")
     header_coordinates(facts, res)
+    res.rule("C06.9 leaf assignment: particles are sorted by the index getIndexFromPosition gave them (a packed key must keep all 63 index bits, in order, above everything else - bit provenance) and leaves are cut where that key changes")
+    leaf_assignment(facts, res)
     narrowing(res, tier)
     k = constcast_lint(facts, res)
     curve_domains(facts, res)
